@@ -10,5 +10,6 @@ import SdnsVerif.Props.C17
 #print axioms SdnsVerif.Props.C17.acl_next_iff
 #print axioms SdnsVerif.Props.C17.viewPick_go_spec
 #print axioms SdnsVerif.Props.C17.view_first_match
+#print axioms SdnsVerif.Props.C17.view_answer_only_from_first
 #print axioms SdnsVerif.Props.C17.accesslist_guards_chain
 #print axioms SdnsVerif.Props.C17.client_policies_are_client_only
